@@ -23,7 +23,7 @@ TB = [
     "paragraph text is observed through _Paragraph.text (a:br reads as vertical tab); the run structure inside a paragraph is outside the model (C04 covers it)",
 ]
 ASSUME = [
-    "tables are those created by shapes.add_table (every a:tc has an a:txBody with at least one a:p, spans >= 1); tables loaded from foreign files with arbitrary span attributes or missing paragraphs are outside the model (the model answers OtherErr there)",
+    "tables are those created by shapes.add_table (every a:tc has an a:txBody with at least one a:p, spans >= 1), half of them then put into a schema-valid form only other producers write (no a:tblPr, a:extLst at the end of rows and cells); tables loaded from foreign files with arbitrary span attributes or missing paragraphs are outside the model (the model answers OtherErr there)",
     "arguments are python ints, indices non-negative (negative python indices and non-int sizes are outside the model)",
     "ZeroDivisionError for rows = 0 or cols = 0 is reported as the error class Other on both sides",
 ]
@@ -67,6 +67,25 @@ class Impl:
             "xml": etree.tostring(gf._element.xfrm) + etree.tostring(tbl),
         }
 
+    def other_producer_form(self, gf, case):
+        """Half of the tables are put (with lxml, before the history starts) into a schema-valid form python-pptx
+        never writes but other producers do: a:tbl without the optional a:tblPr, a:extLst at the end of rows and
+        cells.  Nothing the property speaks about changes, so model, oracle and expected outcomes are the same."""
+        import zlib
+        from lxml import etree
+        v = zlib.crc32(repr(case).encode("utf-8", "surrogatepass")) % 4
+        A = "{http://schemas.openxmlformats.org/drawingml/2006/main}"
+        tbl = gf._element.graphic.graphicData.tbl
+        if v in (1, 3):
+            pr = tbl.find(A + "tblPr")
+            if pr is not None:
+                tbl.remove(pr)
+        if v in (2, 3):
+            for tr in tbl.findall(A + "tr"):
+                for tc in tr.findall(A + "tc"):
+                    etree.SubElement(tc, A + "extLst")
+                etree.SubElement(tr, A + "extLst")
+
     def apply(self, table, op):
         k = op[0]
         if k == "M":
@@ -94,6 +113,7 @@ class Impl:
         except Exception as e:  # noqa
             return "err:" + exc_name(e), []
         try:
+            self.other_producer_form(gf, case)
             obs = self.observe(gf)
             trace = [(None, "ok:", None, obs)]
             out = ["ok:@" + show_obs(obs)]
